@@ -43,4 +43,4 @@ def public_mutator_types():
 
 
 def chain_strs(chain) -> List[str]:
-    return [str(s) for s in chain]
+    return [str(getattr(s, 'site', s)) for s in chain]
